@@ -513,7 +513,7 @@ func VerifC04InvStep() {
 	vnd.Cover("inductive-pre-state", true)
 	href := pre.Href(false)
 	op := vnd.Pick(10)
-	arg := vnd.Str(vnd.Len(vnd.Param("C04.KStep", 1, 2)))
+	arg := vnd.Str(vnd.Len(vnd.Param("C04.KStep", 1, 1)))
 	post := applyOp(pre, op, arg)
 	v := verifCheckInvViolation(post, defaultSchemeTable)
 	if v == "" {
